@@ -67,6 +67,15 @@ BUILTIN_METHOD_NAMES = MUTATORS | VIEW_METHODS | {
     'loads', 'fingerprint', 'digest', 'hexdigest'}
 
 
+# numpy.ma functions documented as "copy: if False modify `a` in place and
+# return a view": position of the array argument
+MA_INPLACE_NOCOPY = {'masked_where': 1, 'masked_equal': 0,
+                     'masked_not_equal': 0, 'masked_greater': 0,
+                     'masked_greater_equal': 0, 'masked_less': 0,
+                     'masked_less_equal': 0, 'masked_inside': 0,
+                     'masked_outside': 0, 'masked_invalid': 0,
+                     'masked_values': 0, 'masked_object': 0,
+                     'fix_invalid': 0}
 NDARRAY_METHODS = {
     'all', 'any', 'argmax', 'argmin', 'argpartition', 'argsort', 'astype',
     'byteswap', 'choose', 'clip', 'compress', 'conj', 'conjugate', 'copy',
@@ -549,7 +558,8 @@ class _FuncAnalysis:
     def _ev_Attribute(self, expr, env):
         base = self.ev(expr.value, env)
         if expr.attr in ('shape', 'size', 'ndim', 'dtype', 'name', 'what',
-                         '__class__', '__name__'):
+                         '__class__', '__name__', 'start', 'stop', 'step',
+                         'lineno', 'nbytes', 'itemsize'):
             return EMPTY
         if expr.attr == 'T':
             return base
@@ -695,9 +705,26 @@ class _FuncAnalysis:
         kwvals = {k.arg: self.ev(k.value, env) for k in call.keywords}
         recv_val = self.ev(recv, env) if recv is not None else None
         # out= keyword of numpy functions
+        nocopy = False
         for kwd in call.keywords:
             if kwd.arg == 'out':
                 self._write(kwvals['out'], call, f'out= {txt(call)[:50]}')
+            if kwd.arg == 'copy' and isinstance(kwd.value, ast.Constant) \
+                    and kwd.value.value is False:
+                nocopy = True
+        if nocopy and cname in MA_INPLACE_NOCOPY:
+            pos = MA_INPLACE_NOCOPY[cname]
+            arr = argvals[pos] if len(argvals) > pos else kwvals.get(
+                'a', kwvals.get('x', EMPTY))
+            self._write(arr, call, f'{cname}(..., copy=False) modifies the '
+                                   f'mask of its array argument in place')
+            return arr
+        if nocopy and cname in ('array', 'asarray', 'astype',
+                                'masked_array', 'MaskedArray') and (
+                                    argvals or recv_val):
+            # no copy: the result is a view of the argument
+            return argvals[0] if argvals and cname != 'astype' else (
+                recv_val or EMPTY)
         # ---- repo callee?
         cands = self._resolve(call, recv)
         if cands:
